@@ -460,7 +460,8 @@ func genScenario(t *rapid.T) sim.BScenario {
 			}
 		}
 		if batch {
-			st.Body = engine.Bytes("[" + strings.Join(ms, ",") + "]")
+			// (white space in front of the array, a carriage return included, changes nothing)
+			st.Body = engine.Bytes(rapid.SampledFrom([]string{"", "", "", "\r\n", " \r", "\n\t "}).Draw(t, "leadws") + "[" + strings.Join(ms, ",") + "]")
 		} else {
 			st.Body = engine.Bytes(ms[0])
 		}
